@@ -72,12 +72,12 @@ pub fn verify_original(original: Unimock, mode: VerifyMode) -> VerifyObs {
             Err(m) => VerifyObs::Panic(m),
         },
         #[cfg(not(feature = "std"))]
-        VerifyMode::Report => match catch(move || original.verify()) {
+        VerifyMode::Report | VerifyMode::ExplicitReport => match catch(move || original.verify()) {
             Ok(()) => VerifyObs::Silent,
             Err(m) => VerifyObs::Panic(m),
         },
         #[cfg(feature = "std")]
-        VerifyMode::Report => match catch(move || original.report()) {
+        VerifyMode::Report | VerifyMode::ExplicitReport => match catch(move || original.report()) {
             Ok(code) => {
                 if format!("{code:?}") == format!("{:?}", std::process::ExitCode::SUCCESS) {
                     VerifyObs::ReportSuccess
@@ -137,7 +137,7 @@ pub fn run_real(scn: &Scenario) -> RealRun {
             }
         }
     };
-    let original = if scn.verify == VerifyMode::ExplicitVerify { original.no_verify_in_drop() } else { original };
+    let original = if matches!(scn.verify, VerifyMode::ExplicitVerify | VerifyMode::ExplicitReport) { original.no_verify_in_drop() } else { original };
     let mut insts: Vec<Unimock> = vec![original];
     for _ in 0..scn.clones {
         let c = insts[0].clone();
